@@ -51,6 +51,10 @@ var c11Types = []string{"b", "i", "i32", "u16", "f", "f32", "s", "pi", "ps", "si
 
 // c11Key: "", a digit, "-", a letter, or a huge number
 func c11Key() string {
+	if vParam("c11keys", 0) == 1 {
+		// small concrete keys only
+		return []string{"", "0", "1", "2", "a"}[vChoose(5)]
+	}
 	switch vChoose(5) {
 	case 0:
 		return ""
@@ -67,6 +71,9 @@ func c11Key() string {
 }
 
 func c11Point(typ string) Point {
+	if vParam("c11containers", 0) == 1 {
+		return Point{Type: typ, Key: c11Key(), Value: vF64(), Text: vStr(1), Tombstone: int(vI8())}
+	}
 	return Point{Type: typ, Key: c11Key(), Value: vF64(), Text: vStr(vChoose(2)), Tombstone: int(vI8())}
 }
 
@@ -97,12 +104,20 @@ func c11Prior() vCfg {
 func HarnessC11Decode() {
 	c := c11Prior()
 	typ := c11Types[vChoose(len(c11Types))]
+	if vParam("c11containers", 0) == 1 {
+		// slice, array and map fields only (where several points of one type interact)
+		typ = []string{"si", "ss", "af", "m"}[vChoose(4)]
+	}
 	var pts []Point
 	for i, n := 0, 1+vChoose(vParam("points", 2)); i < n; i++ {
 		pts = append(pts, c11Point(typ))
 	}
 	before := c
-	switch vChoose(3) {
+	entries := 3
+	if vParam("c11containers", 0) == 1 {
+		entries = 2 // container fields carry point tags: MergeEdgePoints never touches them
+	}
+	switch vChoose(entries) {
 	case 0:
 		vCover("c11: Decode")
 		_ = Decode(NodeEdgeChildren{NodeEdge: NodeEdge{ID: "n", Points: pts, EdgePoints: pts}}, &c)
